@@ -165,6 +165,28 @@ def isChain : Rel → Bool
   | .binary .chain _ _ _ => true
   | _ => false
 
+/-- The shape `_select_to_executable` / `to_payload` can compile without an unsupported-node error: below a
+Select, the skip target is a payload holder, a Calculation or Selection over such a tree, a join of such trees,
+another Select, or - only directly as a skip target (`asSkip`) - a chain of two Selects. -/
+def Rel.compOK : Bool → Rel → Bool
+  | _, .leaf .. => true
+  | _, .mat .. => true
+  | _, .transfer .. => true
+  | _, .unary (.calc _ _) t _ => Rel.compOK false t
+  | _, .unary (.sel _) t _ => Rel.compOK false t
+  | _, .unary _ _ _ => false
+  | _, .binary (.join _) l r _ => Rel.compOK false l && Rel.compOK false r
+  | true, .binary .chain l r _ => l.isSelect && r.isSelect && Rel.compOK false l && Rel.compOK false r
+  | false, .binary .chain _ _ _ => false
+  | _, .binary (.ignoreOne _) _ _ _ => false
+  | _, .select _ _ _ _ _ _ skipTo _ _ => Rel.compOK true skipTo
+
+/-- The operations `_append_unary_to_select` applies BELOW the recorded slots (to the skip target). -/
+def UOp.belowSlots : UOp → Bool
+  | .calc _ _ => true
+  | .sel _ => true
+  | _ => false
+
 /-- `Select.apply_skip(skip_to, sort, projection, deduplication, slice)`. -/
 def applySkip (skipTo : Rel) (sl : Slots) : Except Err Rel := do
   let mut target := skipTo
